@@ -132,7 +132,7 @@ def negative_binomial_grad(
     data: np.ndarray, model: np.ndarray, num_trials: float
 ) -> np.ndarray:
     """Return gradient function for negative binomial distributions."""
-    return (num_trials + 1) / (1 + model) - data / (model + EPS)
+    return (num_trials + data) / (1 + model) - data / (model + EPS)
 
 
 def beta(data: np.ndarray, model: np.ndarray, b: float) -> np.ndarray:
